@@ -159,6 +159,9 @@ def handle (op : String) (args : List String) : String :=
   | "check", [oracle, file] =>
     let (r, broken) := checkerLoad (mkEnv (parseOracle oracle)) (unhexOpt file)
     s!"broken={if broken then 1 else 0} " ++ showFile r
+  | "loadseq", oracle :: files =>
+    let env := mkEnv (parseOracle oracle)
+    " || ".intercalate ((loadSeq env (files.map unhexOpt)).map fun (r, broken) => s!"broken={if broken then 1 else 0} " ++ showFile r)
   | _, _ => "bad-op"
 
 end I18n.Driver.Po
